@@ -1,5 +1,53 @@
-use super::{full_path_prefix, BoundQuery, Query, QueryValidationError, Selection, SelectionId};
+use super::{
+    full_path_prefix, operations::OperationType, BoundQuery, Query, QueryValidationError,
+    ResolvedFragmentId, Selection, SelectionId,
+};
 use crate::schema::TypeId;
+use std::collections::BTreeSet;
+
+/// A subscription must have exactly one root field, also when the root selection is written with
+/// fragment spreads or inline fragments.
+pub(super) fn validate_subscription_root_fields(query: &Query) -> Result<(), QueryValidationError> {
+    for operation in query.operations.iter() {
+        if !matches!(operation._operation_type, OperationType::Subscription) {
+            continue;
+        }
+
+        let mut visited_fragments = BTreeSet::new();
+
+        if count_root_fields(&operation.selection_set, query, &mut visited_fragments) > 1 {
+            return Err(QueryValidationError::new(
+                crate::constants::MULTIPLE_SUBSCRIPTION_FIELDS_ERROR.to_owned(),
+            ));
+        }
+    }
+
+    Ok(())
+}
+
+fn count_root_fields(
+    selection_set: &[SelectionId],
+    query: &Query,
+    visited_fragments: &mut BTreeSet<ResolvedFragmentId>,
+) -> usize {
+    selection_set
+        .iter()
+        .map(|id| match query.get_selection(*id) {
+            Selection::Field(_) | Selection::Typename => 1,
+            Selection::InlineFragment(inline) => {
+                count_root_fields(&inline.selection_set, query, visited_fragments)
+            }
+            Selection::FragmentSpread(fragment_id) => {
+                if visited_fragments.insert(*fragment_id) {
+                    let fragment = query.get_fragment(*fragment_id);
+                    count_root_fields(&fragment.selection_set, query, visited_fragments)
+                } else {
+                    0
+                }
+            }
+        })
+        .sum()
+}
 
 pub(super) fn validate_typename_presence(
     query: &BoundQuery<'_>,
